@@ -314,7 +314,15 @@ func Gen(r *rand.Rand, o GenOpts) *Prog {
 
 // ---------- Taskfile rendering ----------
 
-func taskName(i int) string { return fmt.Sprintf("t%d-*", i) }
+// task names carry a colon and share their last segment ("t3:w-*"): keys derived from a suffix of the name would collide
+func taskName(i int) string { return fmt.Sprintf("t%d:w-*", i) }
+
+// viaShVar: odd-numbered when_changed tasks whose first command is a shell command receive their
+// value through a sh: variable (so that only the fully compiled task distinguishes the calls)
+func (p *Prog) viaShVar(i int) bool {
+	t := p.Tasks[i]
+	return t.Run == "when_changed" && i%2 == 1 && len(t.Cmds) > 0 && t.Cmds[0].Kind == "shell" && len(t.Deps) == 0
+}
 
 // the path expression a task uses for itself and for its children
 func (p *Prog) selfPathExpr(i int) string {
@@ -331,7 +339,7 @@ func (p *Prog) callYAML(from int, m int, c Call) map[string]any {
 		v = fmt.Sprint(*c.Var)
 	}
 	return map[string]any{
-		"task": fmt.Sprintf("t%d-%s.%d", c.Task, p.selfPathExpr(from), m),
+		"task": fmt.Sprintf("t%d:w-%s.%d", c.Task, p.selfPathExpr(from), m),
 		"vars": map[string]any{"V": v},
 	}
 }
@@ -340,9 +348,16 @@ func (p *Prog) Taskfile() map[string]any {
 	tasks := map[string]any{}
 	for i, t := range p.Tasks {
 		y := map[string]any{"run": t.Run}
+		vexp := "{{.V}}"
 		if t.Run == "when_changed" {
-			// make the variable reach a hashed field so that the dedup key is exactly (task, V)
-			y["desc"] = "V={{.V}}"
+			if p.viaShVar(i) {
+				// the value reaches the commands only through a dynamic variable of the task itself
+				y["vars"] = map[string]any{"W": map[string]any{"sh": "echo {{.V}}"}}
+				vexp = "{{.W}}"
+			} else {
+				// make the variable reach a hashed field so that the dedup key is exactly (task, V)
+				y["desc"] = "V={{.V}}"
+			}
 		}
 		var deps []any
 		for j, d := range t.Deps {
@@ -357,7 +372,7 @@ func (p *Prog) Taskfile() map[string]any {
 			m := len(t.Deps) + k
 			switch c.Kind {
 			case "shell":
-				s := fmt.Sprintf("printf '%%s\\n' 'P|%s|%d|{{.V}}'", self, k)
+				s := fmt.Sprintf("printf '%%s\\n' 'P|%s|%d|%s'", self, k, vexp)
 				if c.Exit != 0 {
 					s += fmt.Sprintf("; exit %d", c.Exit)
 				}
@@ -423,7 +438,7 @@ func pathStr(path []int) string {
 }
 
 func (p *Prog) rootName(k int) string {
-	return fmt.Sprintf("t%d-%d", p.Cfg.Roots[k].Task, k)
+	return fmt.Sprintf("t%d:w-%d", p.Cfg.Roots[k].Task, k)
 }
 
 // cycleThroughDedup reports whether some cycle of the call graph contains a run: once / when_changed task.
@@ -466,4 +481,115 @@ func (p *Prog) cycleThroughDedup() bool {
 		}
 	}
 	return false
+}
+
+// ---------- directed programs: shapes that random generation reaches rarely ----------
+
+func sh(exit int) Cmd { return Cmd{Kind: "shell", Exit: exit} }
+func callv(t int, v *int) Cmd {
+	c := Call{Task: t, Var: v}
+	return Cmd{Kind: "call", Call: &c}
+}
+func dcallv(t int, v *int) Cmd {
+	c := Call{Task: t, Var: v}
+	return Cmd{Kind: "dcall", Call: &c}
+}
+func tk(run string, deps []Call, cmds ...Cmd) Task {
+	return Task{Run: run, Deps: deps, Cmds: cmds, G: okGuards()}
+}
+
+// Directed returns one of a few program templates with randomised details.
+func Directed(r *rand.Rand) *Prog {
+	code := []int{1, 2, 7, 126, 255}[r.Intn(5)]
+	dedup := []string{"once", "when_changed"}[r.Intn(2)]
+	p := &Prog{}
+	switch r.Intn(8) {
+	case 0: // a task with defers is cancelled by a failing sibling while it runs
+		p.Tasks = []Task{
+			tk("always", []Call{{Task: 1}, {Task: 2}}, sh(0)),
+			tk("always", nil, Cmd{Kind: "dshell"}, sh(0), sh(0), Cmd{Kind: "dshell"}, sh(0)),
+			tk("always", nil, sh(0), sh(code)),
+		}
+		if r.Intn(2) == 0 {
+			p.Tasks[1].Cmds = append(p.Tasks[1].Cmds, dcallv(3, intp(1)))
+			p.Tasks = append(p.Tasks, tk("always", nil, sh(0)))
+		}
+	case 1: // a shared task fails: every caller must see it
+		p.Tasks = []Task{
+			tk("always", []Call{{Task: 1}, {Task: 2}}, sh(0)),
+			tk("always", []Call{{Task: 3}}, sh(0)),
+			tk("always", nil, sh(0), callv(3, nil), sh(0)),
+			tk(dedup, nil, Cmd{Kind: "dshell"}, sh(0), sh(code)),
+		}
+		if r.Intn(2) == 0 {
+			p.Tasks[0].Ignore = true
+			p.Tasks[0].Deps = nil
+			p.Tasks[0].Cmds = []Cmd{callv(3, nil), callv(1, nil), sh(0)}
+		}
+	case 2: // a caller waiting for a shared task is cancelled by a failing sibling (or the owner is)
+		p.Tasks = []Task{
+			tk("always", []Call{{Task: 1}, {Task: 2}}, sh(0)),
+			tk("always", []Call{{Task: 3}, {Task: 4}}, sh(0)),
+			tk("always", []Call{{Task: 5}}, sh(0)),
+			tk("always", nil, Cmd{Kind: "dshell"}, sh(0), callv(5, nil), sh(0)),
+			tk("always", nil, sh(0), sh(code)),
+			tk(dedup, nil, Cmd{Kind: "dshell"}, sh(0), sh(0), sh(0)),
+		}
+		if r.Intn(2) == 0 {
+			// swap: the owner sits next to the failing sibling, the waiter elsewhere
+			p.Tasks[1].Deps = []Call{{Task: 2}, {Task: 4}}
+			p.Tasks[0].Deps = []Call{{Task: 1}, {Task: 3}}
+		}
+	case 3: // a nested task with its own defers fails: EXIT_CODE at both levels
+		p.Tasks = []Task{
+			tk("always", nil, Cmd{Kind: "dshell"}, callv(1, nil), sh(0)),
+			tk("always", nil, Cmd{Kind: "dshell"}, sh(0), sh(code), sh(0)),
+		}
+		if r.Intn(2) == 0 {
+			p.Tasks[0] = tk("always", []Call{{Task: 1}}, Cmd{Kind: "dshell"}, sh(0))
+		}
+	case 4: // when_changed: one execution per distinct value
+		p.Tasks = []Task{
+			tk("always", []Call{{Task: 1, Var: intp(1)}, {Task: 1, Var: intp(2)}, {Task: 1, Var: intp(1)}}, callv(1, intp(2)), callv(1, intp(0)), sh(0)),
+			tk("when_changed", nil, sh(0), sh(0)),
+		}
+	case 5: // wide fan-out under a small limit
+		p.Tasks = []Task{
+			tk("always", []Call{{Task: 1}, {Task: 1}, {Task: 2}, {Task: 1}}, sh(0)),
+			tk("always", []Call{{Task: 2}}, sh(0), callv(2, nil)),
+			tk(dedup, nil, sh(0), sh(0)),
+		}
+	case 6: // a shared task is cancelled under its first caller; a later caller with a live context must still fail
+		p.Tasks = []Task{
+			tk("always", nil, callv(1, nil), callv(2, nil), sh(0)),
+			tk("always", []Call{{Task: 3}, {Task: 4}}, sh(0)),
+			tk("always", []Call{{Task: 3}}, sh(0)),
+			tk(dedup, nil, sh(0), sh(0), sh(0)),
+			tk("always", nil, sh(0), sh(code)),
+		}
+		p.Tasks[0].Ignore = true
+	default: // guards below a dep and a nested call, with --force
+		p.Tasks = []Task{
+			tk("always", []Call{{Task: 1}}, callv(2, nil), sh(0)),
+			tk("always", nil, sh(0)),
+			tk("always", nil, sh(0)),
+		}
+		g := r.Intn(3)
+		tgt := 1 + r.Intn(2)
+		switch g {
+		case 0:
+			p.Tasks[tgt].G.Precond = boolp(false)
+		case 1:
+			p.Tasks[tgt].G.Prompt = true
+		case 2:
+			p.Tasks[tgt].G.Required = false
+		}
+		p.Cfg.Force = r.Intn(2) == 0
+		p.Cfg.ForceAll = r.Intn(3) == 0
+	}
+	p.Cfg.Roots = []Call{{Task: 0, Var: intp(r.Intn(3))}}
+	p.Cfg.N = []int{0, 1, 2, 3}[r.Intn(4)]
+	p.Cfg.Yes = r.Intn(4) == 0
+	p.Cfg.MaxCall = 1000
+	return p
 }
